@@ -420,4 +420,41 @@ theorem scalar_partial_fit [Inhabited Wt] (K : Kernel X Wt β β) (inf eps : β)
 
 end ScalarFit
 
+/-! ### SimpleARTMAP: the model's supervised step is the generated A-side step under the generated veto -/
+
+section SMap
+variable {X Wt β : Type} [Field β] [LinearOrder β] [IsStrictOrderedRing β]
+
+/-- **One supervised training step of the model (`smapStep`) is**: the generated `BaseART.step_fit` run on the A-side
+with the reset function `SimpleARTMAP.match_reset_func` *as generated from its source* (closed over the current map
+and the sample's class), followed by the map update and the label bookkeeping.  So for elementary A-sides with a
+scalar vigilance the search loop, the decision tables and the class veto of a SimpleARTMAP step all come from the
+source; only the two lines that record `map[c_a] = c_b` and the labels are hand-modelled. -/
+theorem smap_step_via_generated [Inhabited Wt] (K : Kernel X Wt β β) (inf eps : β) (mt : MT)
+    (s : SMapState Wt) (rho : β) (x : X) (y : Nat) :
+    letI : Inhabited β := ⟨0⟩
+    smapStep K (scalarCfg mt false (· + eps) (· - eps) inf) rho s (x, y) =
+      (let r := Art.Gen.BaseART.step_fit (scalarExt K inf) s.a.W.length
+                  ⟨s.a.W, s.a.cnt, s.a.n, rho, s.a.labels, true⟩ x false
+                  (fun _ _ c _ _ => Gen.SimpleARTMAP.match_reset (mapGet s.map) c y) mt eps
+       { a := { W := r.1.W, cnt := r.1.cnt, n := r.1.n, labels := s.a.labels ++ [r.2] }
+         map := mapSet s.map r.2 y
+         labelsB := s.labelsB ++ [y] }) := by
+  letI : Inhabited β := ⟨0⟩
+  have hreset : (fun (_ : X) (_ : Wt) (c : Nat) (_ : β) (_ : β) => Gen.SimpleARTMAP.match_reset (mapGet s.map) c y) =
+      (fun _ _ c _ _ => !mapVeto s.map y c) := by
+    funext _ _ c _ _; exact smap_match_reset s.map c y
+  rw [hreset]
+  have h := scalar_step_fit K inf eps ⟨s.a.W, s.a.cnt, s.a.n, rho, s.a.labels, true⟩ x mt false (mapVeto s.map y)
+    (by intro h; cases h)
+  simp only at h
+  rw [h]
+  obtain ⟨_, hlab, _⟩ := stepFit_frame K (scalarCfg mt false (· + eps) (· - eps) inf) rho (mapVeto s.map y) s.a x
+  have hs : ({ W := s.a.W, cnt := s.a.cnt, n := s.a.n, labels := s.a.labels } : ArtState Wt) = s.a := rfl
+  simp only [smapStep, hs]
+  congr 1
+  simp [hlab]
+
+end SMap
+
 end Art.GenSpec.Control
